@@ -141,6 +141,25 @@ BAD = {
 }
 
 
+def _consume(c):
+    """an FST slice of the carrier's kind that has been consumed by a put into ANOTHER tree (None if the carrier cannot express it);
+    tried with one and with two new elements as the source container (a one-element BoolOp / MatchOr collapses) and at either end
+    of the other tree (ordering rules of call arguments)"""
+    for k in (1, 2):
+        for at_end in (False, True):
+            try:
+                other = pc.Ctx(c)
+                code = FST(c.render(c.new[:k]), 'exec')
+                code = c.locate(code).get_slice(0, 1, c.field)
+                pos = other.n if at_end else 0
+                with FST.options(**pc.OPTS):
+                    other.cont.put_slice(code, pos, pos, c.field)
+                return code
+            except Exception:   # noqa: BLE001  this combination cannot express the scenario
+                continue
+    return None
+
+
 def _mk_fail(cid, kind):
     c = pc.CARRIER[cid]
 
@@ -149,18 +168,9 @@ def _mk_fail(cid, kind):
         sig = f'{cid}.{kind}'
         spec = BAD[kind]
         if spec == 'consumed':
-            with pc.untraced():
-                code = FST(c.code_one() if c.new_one else c.new[0], 'exec' if c.sep == '\n' else None) if False else None
             # build an FST, consume it by putting it into ANOTHER tree, then reuse it
             with pc.untraced():
-                other = pc.Ctx(c)
-                try:
-                    code = FST(c.render(c.new[:1]), 'exec')
-                    code = c.locate(code).get_slice(0, 1, c.field)
-                    with FST.options(**pc.OPTS):
-                        other.cont.put_slice(code, 0, 0, c.field)
-                except Exception:   # noqa: BLE001  this carrier cannot express the scenario
-                    code = None
+                code = _consume(c)
                 pc.reset_globals()
             assume(code is not None)
             opts = {}
@@ -299,8 +309,27 @@ CELLS = [
 CELLS += [c for c in _c03.CELLS if c.name.startswith('K2.') and ('body=2' in c.name or 'body=1' in c.name or 'body=0' in c.name)]
 _Q = {('list4c', 'unparsable'), ('ifbody3', 'unparsable'), ('callargs', 'wrongcat'), ('list4c', 'unknown_option'), ('ifbody3', 'bad_trivia'),
       ('dict3', 'unparsable2'), ('list4c', 'consumed_fst'), ('tuple3', 'nonroot_fst'), ('callgen', 'unparsable'), ('callgen', 'wrongcat')}
+def _expressible(c, kind):
+    """build-time probe (concrete, untraced): can this carrier express the consumed / non-root scenario at all?  A cell whose
+    scenario cannot be built would be vacuous, so it is not generated (the carrier keeps all its other invalid-request cells)"""
+    try:
+        other = pc.Ctx(c)
+        if kind == 'consumed_fst':
+            return _consume(c) is not None
+        if kind == 'nonroot_fst':
+            return any(hasattr(k, 'f') for k in ast.iter_child_nodes(other.cont.a))
+        return True
+    except Exception:   # noqa: BLE001
+        return False
+    finally:
+        pc.reset_globals()
+
+
+NOT_EXPRESSIBLE = [(c.id, k) for c in pc.CARRIERS for k in ('consumed_fst', 'nonroot_fst') if not _expressible(c, k)]
 for _c in pc.CARRIERS:
     for _k in BAD:
+        if (_c.id, _k) in NOT_EXPRESSIBLE:
+            continue
         CELLS.append(Cell(f'P1.{_c.id}.{_k}', _mk_fail(_c.id, _k), 'P', pc.FN_EDIT + FN12,
                           f'carrier {_c.id}; invalid request kind {_k}; slice bounds (a, b) and the index of the following valid insert: all integers',
                           tier='quick' if (_c.id, _k) in _Q else 'thorough', budget=300, per_path=60,
